@@ -64,7 +64,8 @@ Priv(k, au, pay, old) ==
 Probe == op' = Op("Probe", None, None, None, None, "ok") /\ UNCHANGED svars
 
 Next ==
-  \/ \E k \in Kind \ RejectOnly, au \in Auth, pay \in {"valid", "invalid"} \cup (IF k \in ResetKind THEN {"reset"} ELSE {}) :
+  \/ \E k \in Kind \ RejectOnly, au \in Auth :
+     \E pay \in {"valid", "invalid"} \cup (IF k \in ResetKind THEN {"reset"} ELSE {}) :
         IF k \in StoreKind THEN \E old \in OldClass : Priv(k, au, pay, old) ELSE Priv(k, au, pay, None)
   \/ \E k \in RejectOnly, au \in Auth \ {"gov"} : Priv(k, au, "invalid", None)
   \/ Probe
